@@ -156,6 +156,8 @@ func (lcm *LCM) DecodeFromBytes(data []byte, df gopacket.DecodeFeedback) error {
 		offset += 2
 	} else {
 		lcm.Fragmented = false
+		lcm.PayloadSize, lcm.FragmentOffset = 0, 0
+		lcm.FragmentNumber, lcm.TotalFragments = 0, 0
 	}
 
 	if !lcm.Fragmented || (lcm.Fragmented && lcm.FragmentNumber == 0) {
@@ -171,8 +173,11 @@ func (lcm *LCM) DecodeFromBytes(data []byte, df gopacket.DecodeFeedback) error {
 		}
 
 		lcm.ChannelName = string(buffer)
+	} else {
+		lcm.ChannelName = ""
 	}
 
+	lcm.fingerprint = 0
 	if len(data)-offset >= 8 {
 		lcm.fingerprint = LCMFingerprint(
 			binary.BigEndian.Uint64(data[offset : offset+8]))
